@@ -281,7 +281,8 @@ def add_tag_noise(rng, cr):
     a second name tag, ...) and rewrite pretext.agp.  Such maps may be rejected - but always
     in the same way."""
     pt = cr["pretext"]
-    pool = ["Hap1", "HAP1", "hap1", "Hap2", "HAP2", "X", "Y", "B1", "Singleton", "Primary", "Target", "Hap3"]
+    pool = ["Hap1", "HAP1", "hap1", "Hap2", "HAP2", "X", "Y", "B1", "Singleton", "Primary", "Target", "Hap3",
+            "Haplotig", "Contaminant", "FalseDuplicate", "Haplotig", "Contaminant", "FalseDuplicate", "Unloc"]
     with_pieces = [sc_ for sc_ in pt if any(r[0] == "F" for r in sc_[1])]
     if not with_pieces:
         return  # (every input scaffold is shorter than a texel and absent from the map: nothing to tag)
@@ -298,6 +299,11 @@ def add_tag_noise(rng, cr):
         for t in rng.sample(cand, min(len(cand), rng.randint(1, 2))):
             if t not in r[5]:
                 r[5].append(t)
+        if rng.random() < 0.3:
+            # one piece set aside under two headings at once (which one counts is the tool's choice - but one choice)
+            for t in rng.sample(["Haplotig", "Contaminant", "FalseDuplicate"], 2):
+                if t not in r[5]:
+                    r[5].append(t)
     (cr["dir"] / "pretext.agp").write_text(gpv.pretext_agp_text(pt, cr["t"]))
     cr["labels"] = sorted(set(cr.get("labels", [])) | {"tag:noise-several-special-tags"})
 
